@@ -28,7 +28,8 @@ impl Lfsr {
     }
     /// Clock the LFSR.
     fn next(&mut self, i: u8) -> u8 {
-        assert!(i <= 1);
+        // Input is a stream of bits, one per byte. Don't crash on bad input.
+        let i = i & 1;
         let ret = 1 & (self.shift_reg & self.mask).count_ones() as u8 ^ i;
         self.shift_reg = (self.shift_reg >> 1) | ((i as u64) << self.len);
         ret
